@@ -23,8 +23,12 @@ def fresh_root(node, memo=None):
     return r
 
 
-def child_of(t, view, key, via_slice=False, via_iter=False):
+def child_of(t, view, key, via_slice=False, via_iter=False, via_nav=False):
     k = kind(t)
+    if via_nav and k in ('vec', 'list', 'cont'):
+        # the child is obtained through the path-navigation API
+        sub = t[1] if k != 'cont' else t[1:][key]
+        return sub, view.navigate_view(key if k != 'cont' else 'f%d' % key)
     if k in ('vec', 'list'):
         if via_iter:
             # the child is one of the views handed out by iterating the parent to the end
@@ -76,9 +80,9 @@ def run_store(t, v, ops, lazy=False):
                 E(lambda: vv.hash_tree_root())
         try:
             o = op[0]
-            if o in ('child', 'childs', 'childi'):
+            if o in ('child', 'childs', 'childi', 'childn'):
                 pt, pv = views[int(op[1])]
-                ct, cv = child_of(pt, pv, int(op[2]), via_slice=(o == 'childs'), via_iter=(o == 'childi'))
+                ct, cv = child_of(pt, pv, int(op[2]), via_slice=(o == 'childs'), via_iter=(o == 'childi'), via_nav=(o == 'childn'))
                 if isinstance(ct, str) or kind(ct) in ('Bv', 'Bl') or cv is None:
                     raise ValueError("not a mutable child view")
                 parent[len(views)] = int(op[1])
